@@ -12,6 +12,12 @@ scale=[{"set":"s","file":"bsdiff/diff.go","func":"Do","match":"128 * 1024","valu
  {"set":"s","file":"bsdiff/patch.go","func":"NewIndividualPatchContext","ident":"lruNumEntries","value":"2"}]
 H.append({"name":"H_bsdiff","tiers":Q,"scale":"s","bounds":"alphabet {0,1}: old 0..4, new 0..4 bytes, partitions 0..6, concurrency 0; scan block 4, lru chunk 2 x 2 entries",
   "param_sets":[{"nold":a,"nnew":b,"alpha":2,"parts":p,"conc":0} for a in range(0,5) for b in range(0,5) for p in (0,1,2,3,6)]})
+scale+=[{"set":"s4","file":"bsdiff/diff.go","func":"Do","match":"128 * 1024","value":"8"},
+ {"set":"s4","file":"bsdiff/patch.go","func":"NewIndividualPatchContext","ident":"minBufferSize","value":"4"},
+ {"set":"s4","file":"bsdiff/patch.go","func":"NewIndividualPatchContext","ident":"lruChunkSize","value":"4"},
+ {"set":"s4","file":"bsdiff/patch.go","func":"NewIndividualPatchContext","ident":"lruNumEntries","value":"2"}]
+H.append({"name":"H_bsdiff_edit","tiers":Q,"scale":"s4","bounds":"lru chunk 4 / copy buffer 4 / scan block 8, alphabet {0,1}: old of 5..9 bytes, new = old with one byte (every position) replaced by a fresh symbol: add regions that run to the end of the old file with the delta in any read slice, incl. the last short one; partitions 0..1",
+  "param_sets":[{"nold":n,"pos":p,"alpha":2,"parts":q,"conc":0} for n in (5,6,7,9) for p in range(n) for q in (0,1)]})
 H.append({"name":"H_bsdiff","tiers":T,"scale":"s","bounds":"alphabet {0,1,2}: old 0..5, new 0..6, partitions 0..16","max_seconds":1500,
   "param_sets":[{"nold":a,"nnew":b,"alpha":3,"parts":p,"conc":c} for a in range(0,6) for b in range(0,7) for p in (0,1,2,3,4,5,8,16) for c in (0,)]})
 json.dump({"property":"C12","package":"c12","scale":scale,"harnesses":H,
